@@ -98,9 +98,8 @@ Proof.
   rewrite Hl. cbn [fst snd].
   destruct (e =? 0); destruct (m =? 0); destruct (R >=? 3); cbn [negb andb orb Z.gtb Z.compare];
     try reflexivity;
-    repeat first
-      [ change 512 with (2 ^ 9) | change 16 with (2 ^ 4)
-      | change 1024 with (2 ^ 10) | change 8 with (2 ^ 3) ];
+    change 512 with (2 ^ 9); change 16 with (2 ^ 4);
+    change 1024 with (2 ^ 10); change 8 with (2 ^ 3);
     rewrite ?land_pow2_eqb0 by lia;
     change (10 - 1) with 9; change (5 - 1) with 4; change (11 - 1) with 10; change (4 - 1) with 3;
     repeat match goal with |- context [Z.testbit P ?k] => destruct (Z.testbit P k) end;
